@@ -281,14 +281,14 @@ type ringSched struct {
 }
 
 type ringStep struct {
-	p, k, a   string
-	n         int
-	pc        string
-	ps, cs    int
-	pfree     bool
-	cfree     bool
-	ret       string
-	m         int
+	p, k, a string
+	n       int
+	pc      string
+	ps, cs  int
+	pfree   bool
+	cfree   bool
+	ret     string
+	m       int
 }
 
 func parseRingStep(s string) ringStep {
